@@ -1,6 +1,7 @@
 package main
 
 import (
+	"reflect"
 	"encoding/json"
 	"fmt"
 	"go/constant"
@@ -40,6 +41,12 @@ func runTypeCheck(eng *Engine, name string) []*Obligation {
 		return guardedClosureObligations(eng, strings.TrimPrefix(name, "guarded:"))
 	case strings.HasPrefix(name, "callers:"):
 		return callerObligations(eng, strings.TrimPrefix(name, "callers:"))
+	case strings.HasPrefix(name, "assumed:"):
+		return assumedContractObligations(eng, strings.TrimPrefix(name, "assumed:"))
+	case strings.HasPrefix(name, "fieldaccess:"):
+		return fieldAccessObligations(eng, strings.TrimPrefix(name, "fieldaccess:"))
+	case strings.HasPrefix(name, "configkeys:"):
+		return configKeyObligations(eng, strings.TrimPrefix(name, "configkeys:"))
 	case strings.HasPrefix(name, "implementors:"):
 		return implementorObligations(eng, strings.TrimPrefix(name, "implementors:"))
 	case strings.HasPrefix(name, "templates:"):
@@ -736,4 +743,175 @@ func implementorObligations(eng *Engine, spec string) []*Obligation {
 		mkOb("implementors["+iface+"]", "implementors", "every value converted to "+iface+" in the module has one of the types the interface contract is established for: "+spec[j+1:], len(bad) == 0, "other dynamic types: "+strings.Join(uniq(bad), ", "), props),
 		mkOb("implementors["+iface+"]/found", "implementors", "each listed implementation of "+iface+" is converted to it somewhere (vacuity guard)", n > 0 && len(missing) == 0, fmt.Sprintf("%d conversions; never converted: %s", n, strings.Join(missing, ", ")), props),
 	}
+}
+
+// fieldAccessObligations: "pkg.Type.field=fn1,fn2[@props]" — every access (address or value) of the field in
+// non-test sso code lies in one of the listed functions. With Type.field = OAuthProxy.handler this says the
+// upstream handler is reachable only through Proxy (which authenticates first or scrubs the identity headers).
+func fieldAccessObligations(eng *Engine, spec string) []*Obligation {
+	var props []string
+	if j := strings.Index(spec, "@"); j >= 0 {
+		props = strings.Split(spec[j+1:], ",")
+		spec = spec[:j]
+	}
+	j := strings.Index(spec, "=")
+	if j < 0 || strings.LastIndex(spec[:j], ".") < 0 {
+		return []*Obligation{mkOb("fieldaccess["+spec+"]", "fieldaccess", "fieldaccess:<pkg.Type.field>=<functions>", false, "malformed", props)}
+	}
+	target, allowed := spec[:j], map[string]bool{}
+	for _, a := range strings.Split(spec[j+1:], ",") {
+		allowed[a] = true
+	}
+	k := strings.LastIndex(target, ".")
+	typ, field := target[:k], target[k+1:]
+	var fns []*ssa.Function
+	for fn := range ssautil.AllFunctions(eng.prog) {
+		if strings.HasPrefix(fnPkgPath(fn), modPrefix) && fn.Blocks != nil {
+			fns = append(fns, fn)
+		}
+	}
+	sort.Slice(fns, func(i, j int) bool { return fns[i].String() < fns[j].String() })
+	n := 0
+	var bad []string
+	match := func(t types.Type, idx int) bool {
+		if p, ok := t.Underlying().(*types.Pointer); ok {
+			t = p.Elem()
+		}
+		if mangleShort(t.String()) != typ {
+			return false
+		}
+		st, ok := t.Underlying().(*types.Struct)
+		return ok && idx < st.NumFields() && st.Field(idx).Name() == field
+	}
+	for _, fn := range fns {
+		for _, b := range fn.Blocks {
+			for _, in := range b.Instrs {
+				hit := false
+				switch t := in.(type) {
+				case *ssa.FieldAddr:
+					hit = match(t.X.Type(), t.Field)
+				case *ssa.Field:
+					hit = match(t.X.Type(), t.Field)
+				}
+				if !hit {
+					continue
+				}
+				n++
+				if !allowed[shortFn(fn)] {
+					bad = append(bad, shortFn(fn))
+				}
+			}
+		}
+	}
+	sort.Strings(bad)
+	return []*Obligation{
+		mkOb("fieldaccess["+target+"]", "fieldaccess", "every access of "+target+" in the module is in: "+spec[j+1:], len(bad) == 0, "other accesses in: "+strings.Join(uniq(bad), ", "), props),
+		mkOb("fieldaccess["+target+"]/found", "fieldaccess", "the field "+target+" is accessed somewhere (vacuity guard)", n > 0, fmt.Sprintf("%d accesses", n), props),
+	}
+}
+
+// configKeyObligations: "pkg.Type[@props]" — the configuration keys a struct decodes from (mapstructure: the
+// tag's name, else the lower-cased field name; a tag under any other key is ignored by the decoder) are the
+// ones recorded in spec/configkeys.json. Documented environment variables (SESSION_TTL_GRACEPERIOD ...) reach
+// their fields only through these keys; the decoder itself (viper/mapstructure) is not verified.
+func configKeyObligations(eng *Engine, spec string) []*Obligation {
+	var props []string
+	if j := strings.Index(spec, "@"); j >= 0 {
+		props = strings.Split(spec[j+1:], ",")
+		spec = spec[:j]
+	}
+	name := "configkeys[" + spec + "]"
+	b, err := os.ReadFile(filepath.Join(verifDir(), "spec", "configkeys.json"))
+	if err != nil {
+		return []*Obligation{mkOb(name, "configkeys", "spec/configkeys.json readable", false, err.Error(), props)}
+	}
+	var all map[string]map[string]string
+	if err := json.Unmarshal(b, &all); err != nil {
+		return []*Obligation{mkOb(name, "configkeys", "spec/configkeys.json parses", false, err.Error(), props)}
+	}
+	k := strings.LastIndex(spec, ".")
+	if k < 0 {
+		return []*Obligation{mkOb(name, "configkeys", "configkeys:<pkg.Type>", false, "malformed", props)}
+	}
+	pkg := eng.typesPkg(modPrefix + "internal/" + spec[:k])
+	if pkg == nil {
+		return []*Obligation{mkOb(name, "configkeys", "package of "+spec+" is loaded", false, "no such package", props)}
+	}
+	obj := pkg.Scope().Lookup(spec[k+1:])
+	if obj == nil {
+		return []*Obligation{mkOb(name, "configkeys", "type "+spec+" exists", false, "no such type", props)}
+	}
+	st, ok := obj.Type().Underlying().(*types.Struct)
+	if !ok {
+		return []*Obligation{mkOb(name, "configkeys", "type "+spec+" is a struct", false, "not a struct", props)}
+	}
+	got := map[string]string{}
+	for i := 0; i < st.NumFields(); i++ {
+		f := st.Field(i)
+		if !f.Exported() {
+			continue
+		}
+		key := strings.ToLower(f.Name())
+		if tag, ok := reflect.StructTag(st.Tag(i)).Lookup("mapstructure"); ok {
+			if n := strings.Split(tag, ",")[0]; n != "" {
+				key = strings.ToLower(n)
+			}
+		}
+		got[f.Name()] = key
+	}
+	if os.Getenv("SSOVC_PRINT_CONFIGKEYS") != "" {
+		jb, _ := json.Marshal(got)
+		fmt.Printf("CONFIGKEYS %s %s\n", spec, jb)
+	}
+	want := all[spec]
+	var diff []string
+	for f, k := range want {
+		if got[f] != k {
+			diff = append(diff, fmt.Sprintf("%s decodes from %q, recorded %q", f, got[f], k))
+		}
+	}
+	for f, k := range got {
+		if _, ok := want[f]; !ok {
+			diff = append(diff, fmt.Sprintf("%s decodes from %q, not recorded", f, k))
+		}
+	}
+	sort.Strings(diff)
+	return []*Obligation{mkOb(name, "configkeys", "the fields of "+spec+" decode from the recorded configuration keys (spec/configkeys.json)", len(diff) == 0 && len(want) > 0, strings.Join(diff, "; "), props)}
+}
+
+// assumedContractObligations: "name[@props]" — an assumed contract of a library the proof rests on is put to a
+// bounded witness test against the real library (the replay adapter registered as assumed[name] in
+// replay/index.json, run with `go test -overlay` on the tree under check). A failing witness refutes the
+// assumption on the real code: the obligation fails, with that test as its replay. A passing witness proves
+// nothing: the obligation is recorded as a bounded stand-in (kind "assumed-contract", back end "bounded-witness"),
+// kept out of the discharged count.
+func assumedContractObligations(eng *Engine, spec string) []*Obligation {
+	var props []string
+	if j := strings.Index(spec, "@"); j >= 0 {
+		props = strings.Split(spec[j+1:], ",")
+		spec = spec[:j]
+	}
+	name := "assumed[" + spec + "]"
+	o := &Obligation{Name: name, Kind: "assumed-contract", Props: props, Solvers: map[string]int{},
+		Clause: "assumed library contract " + spec + " is not refuted by its witness test on the real library (bounded; not a proof)"}
+	outDir := filepath.Join(outBase(), "out", "assumed")
+	failedOnCode, detail := tryReplay(eng, outDir, "", o)
+	vc := &VC{Ob: name, Kind: "assumed-contract", Clause: o.Clause, Raw: detail, Solver: "bounded-witness"}
+	o.VCs = []*VC{vc}
+	switch {
+	case failedOnCode:
+		o.Status = "failed"
+		vc.Verdict = "witness-fails"
+		o.Failed = []*VC{vc}
+		o.replayed = true
+	case strings.HasPrefix(detail, "no replay") || strings.HasPrefix(detail, "bad replay") || !strings.Contains(detail, "\nok "):
+		o.Status = "failed"
+		vc.Verdict = "witness-did-not-run"
+		o.Failed = []*VC{vc}
+	default:
+		o.Status = "discharged"
+		vc.Verdict = "not-refuted"
+		o.Solvers["bounded-witness"] = 1
+	}
+	return []*Obligation{o}
 }
